@@ -1,6 +1,6 @@
 /* C03 - Transmission errors in Teletext are corrected or contained, never shown as data.
  *
- * Fault enumeration (DESIGN.md C03) over 13 base transmissions built by a small
+ * Fault enumeration (DESIGN.md C03) over 16 base transmissions built by a small
  * transmitter model written here (EN 300 706 packet layouts: header, text rows, X/26,
  * X/27/0, X/27/4, X/28/0, X/28/4, M/29/0, 8/30 format 1 and 2, Hamming coded MOT rows).
  * The model also says which bytes of each packet are Hamming 8/4, Hamming 24/18, odd
@@ -47,6 +47,22 @@
  *  (f) X/27 packet with an uncorrectable link byte (two flips in one Hamming 8/4 byte of a link): every FLOF link
  *      of the fetched page is the link of the fault free run or the link the page has without this packet.
  *      Added after seed C03-6.
+ *  (g) X/28 or M/29 packet with an uncorrectable triplet (two flips in one Hamming 24/18 unit, address and
+ *      designation at most corrected): these packets carry nothing but control data (page function and coding,
+ *      character set designation, colour map, default screen / row colour, CLUT remapping), so the property's
+ *      "a packet whose ... control bytes are uncorrectable changes nothing" covers each of their 13 triplets:
+ *      the packet "changes nothing" - the full canonical state equals the run with
+ *      that packet dropped, and an observer that looks at what X/28 / M/29 control finds the same as in the
+ *      packet-dropped run: every transmitted page fetched at levels 1, 1.5, 2.5 and 3.5 has the same character
+ *      set (vbi_page.font, Unicode of every cell), color_map, screen_color, screen_opacity and cell attributes
+ *      (row colour / CLUT remapping).  Added after seed C03 round 5, together with the three base transmissions
+ *      "... retransmitted over the cached copy": a page carrying X/28/0 (non Latin character sets, own colour map,
+ *      screen colour) in a magazine with M/29/0 + M/29/4; a page carrying X/28/4 alone and one carrying X/28/0 +
+ *      X/28/4; a page carrying X/26/0-1 + X/27/0 + X/27/4 - each transmitted a SECOND time while the first, fault
+ *      free copy is in the cache.  In these three transmissions the faults are enumerated in the packets of the
+ *      second transmission cycle only (a fault in the first cycle is the history the other transmissions cover).
+ *      The seed selected the page's extension (and overwrote it with the magazine defaults) before all triplets of
+ *      the X/28 were validated, which only shows when an earlier good X/28 is carried over from the cache.
  *
  * Deviations from DESIGN.md: flat enumeration inside pool cases instead of mc_choose()
  * (one "deviation" = one fault pattern on one packet; nothing is gained by prefix
@@ -163,6 +179,7 @@ struct inst {
         int hdr;                       /* index of the header packet */
         int lop;                       /* a level one page the decoder formats */
         int filler;
+        int nonlatin;                  /* X/28 designates a character set the level one character model below does not cover */
         uint8_t have[26];
         uint8_t row[26][40];           /* 7 bit characters as transmitted */
         uint8_t htext[32];
@@ -176,13 +193,14 @@ struct inst {
 struct tx {
         const char *name;
         int n, ni, serial;
+        int first_fault;               /* faults are enumerated in packets first_fault..n-1 (0 but for the retransmission shapes) */
         struct pkt p[MAXP];
         struct inst in[MAXI];
         int cur[8];
         int ntx; struct { int pgno, subno; } txset[MAXI];
 };
 
-#define NT 13
+#define NT 16
 static struct tx T[NT];
 static int nT;
 
@@ -303,12 +321,13 @@ static void put_bits(struct bitw *w, unsigned v, int n)
 }
 
 /* X/28/0 format 1, X/28/4, M/29/0 (EN 300 706 9.4.2) */
-static void tx_x28(struct tx *t, int kind, int mag, int desig, int salt)
+static void tx_x28cs(struct tx *t, int kind, int mag, int desig, int salt, int cs0, int cs1)
 {
         struct bitw w; memset(&w, 0, sizeof w);
         put_bits(&w, 0, 4);                      /* page function: level one page */
         put_bits(&w, 0, 3);                      /* coding */
-        put_bits(&w, 0, 7); put_bits(&w, 0, 7);  /* default / second character set: keep Latin */
+        put_bits(&w, cs0, 7); put_bits(&w, cs1, 7);  /* default G0/G2 and second G0 character set (EN 300 706 table 32/33) */
+        if (kind == PK_X28 && (cs0 || cs1)) t->in[t->cur[mag & 7]].nonlatin = 1;
         put_bits(&w, 0, 1); put_bits(&w, 0, 1); put_bits(&w, 0, 1); put_bits(&w, 0, 4);
         for (int i = 0; i < 16; i++) put_bits(&w, (0x123 * (i + 1) + salt * 0x111) & 0xFFF, 12);
         put_bits(&w, (3 + salt) & 31, 5); put_bits(&w, (5 + salt) & 31, 5);
@@ -316,6 +335,9 @@ static void tx_x28(struct tx *t, int kind, int mag, int desig, int salt)
         if (w.n != 13 * 18) die("X/28 bit count %d", w.n);
         tx_triplets(t, kind, mag, kind == PK_M29 ? 29 : 28, desig, w.trip, kind == PK_M29 ? -1 : t->cur[mag & 7]);
 }
+
+/* character sets 0/0: keep Latin */
+static void tx_x28(struct tx *t, int kind, int mag, int desig, int salt) { tx_x28cs(t, kind, mag, desig, salt, 0, 0); }
 
 static void tx_status(struct pkt *p)
 {
@@ -408,6 +430,9 @@ static void tx_finish(struct tx *t)
                         if (j > i && in->next_same == t->n) in->next_same = o->hdr;
                 }
         }
+        for (int i = 0; i < t->ni; i++)
+                for (int j = 0; j < t->ni; j++)
+                        if (t->in[j].nonlatin && !t->in[i].filler && t->in[i].pgno == t->in[j].pgno && t->in[i].subno == t->in[j].subno) t->in[i].nonlatin = 1;
 }
 
 /* X/26 addressing is recorded when the packet is built */
@@ -487,16 +512,19 @@ static void build_transmissions(void)
         tx_header(t, 1, 0x52, 0, F_C13 | F_C9);           std_rows(t, 1, 0x152, 0, 1, ROWS(1));
         tx_finish(t);
 
+        unsigned x26_a[13] = { TRIP(41, 0x04, 0), TRIP(5, 0x0F, 0x2A), TRIP(6, 0x09, 0x41), TRIP(10, 0x12, 0x65),
+                               TRIP(42, 0x04, 0), TRIP(0, 0x0F, 0x30), TRIP(39, 0x0F, 0x31), TRIP(43, 0x04, 0),
+                               TRIP(7, 0x0F, 0x32), TRIP(8, 0x11, 0x61), TRIP(9, 0x09, 0x42), TRIP(20, 0x0F, 0x33), TRIP(21, 0x0F, 0x34) };
+        /* the PDC triplet (row group, mode 0x08) carries 43 in its address field without moving the active position:
+         * the character behind it still belongs to row 12, and row 3 column 3 stays a level one cell (seed C03-8) */
+        unsigned x26_b[13] = { TRIP(22, 0x0F, 0x35), TRIP(52, 0x04, 0), TRIP(1, 0x0F, 0x36), TRIP(2, 0x13, 0x6F),
+                               TRIP(43, 0x08, 0x10), TRIP(3, 0x0F, 0x37), TRIP(63, 0x1F, 0x07), TRIP(63, 0x1F, 0x07),
+                               TRIP(63, 0x1F, 0x07), TRIP(63, 0x1F, 0x07), TRIP(63, 0x1F, 0x07), TRIP(63, 0x1F, 0x07), TRIP(63, 0x1F, 0x07) };
+        static const int x27_links[6] = { 0x101, 0x102, 0x203, 0x104, 0x8FF, 0x100 };
+
         t = tx_new("X/26 enhancement", 0);
         {
-                unsigned a[13] = { TRIP(41, 0x04, 0), TRIP(5, 0x0F, 0x2A), TRIP(6, 0x09, 0x41), TRIP(10, 0x12, 0x65),
-                                   TRIP(42, 0x04, 0), TRIP(0, 0x0F, 0x30), TRIP(39, 0x0F, 0x31), TRIP(43, 0x04, 0),
-                                   TRIP(7, 0x0F, 0x32), TRIP(8, 0x11, 0x61), TRIP(9, 0x09, 0x42), TRIP(20, 0x0F, 0x33), TRIP(21, 0x0F, 0x34) };
-                /* the PDC triplet (row group, mode 0x08) carries 43 in its address field without moving the active position:
-                 * the character behind it still belongs to row 12, and row 3 column 3 stays a level one cell (seed C03-8) */
-                unsigned b[13] = { TRIP(22, 0x0F, 0x35), TRIP(52, 0x04, 0), TRIP(1, 0x0F, 0x36), TRIP(2, 0x13, 0x6F),
-                                   TRIP(43, 0x08, 0x10), TRIP(3, 0x0F, 0x37), TRIP(63, 0x1F, 0x07), TRIP(63, 0x1F, 0x07),
-                                   TRIP(63, 0x1F, 0x07), TRIP(63, 0x1F, 0x07), TRIP(63, 0x1F, 0x07), TRIP(63, 0x1F, 0x07), TRIP(63, 0x1F, 0x07) };
+                const unsigned *a = x26_a, *b = x26_b;
                 int rs = 0;
                 tx_header(t, 1, 0x00, 0, 0);
                 tx_x26(t, 1, 0, a); note_x26(t, 1, a, 13, &rs);
@@ -509,7 +537,7 @@ static void build_transmissions(void)
 
         t = tx_new("X/27 links", 0);
         {
-                static const int links[6] = { 0x101, 0x102, 0x203, 0x104, 0x8FF, 0x100 };
+                const int *links = x27_links;
                 unsigned l4[13];
                 for (int i = 0; i < 13; i++) l4[i] = (0x2A5A5 + 0x1357 * i) & 0x3FFFF;
                 tx_header(t, 1, 0x00, 0, 0);
@@ -589,6 +617,77 @@ static void build_transmissions(void)
         tx_header(t, 1, 0x03, 0, 0);      std_rows(t, 1, 0x103, 0, 1, ROWS(1));
         tx_finish(t);
 
+        /* ---- seed C03 round 5: enhancement packets transmitted a second time over the cached, fault free copy.
+         * Faults are enumerated in the second cycle only (first_fault). ---- */
+
+        /* Page 100 carries X/28/0 alone, with non Latin character sets (G0 Greek, second G0 Cyrillic), its own colour map,
+         * screen / row colour and CLUT remapping; magazine 1 gets M/29/0 + M/29/4 with other values (Cyrillic), so page
+         * defaults (X/28), magazine defaults (M/29) and decoder defaults all differ, and page 101 (no X/28) shows the M/29
+         * values at level 2.5.  Second cycle: X/28/0 and M/29/0 with new contents (page update), M/29/4 repeated.
+         * The X/28/0 must be the only X/28 of the page: the decoder starts the page extension afresh from the magazine
+         * defaults at the first X/28 behind every header, so a good X/28/4 behind a lost X/28/0 legitimately resets it. */
+        t = tx_new("X/28/0 and M/29 retransmitted over the cached copy", 0);
+        tx_header(t, 1, 0x00, 0, 0);
+        tx_x28cs(t, PK_X28, 1, 0, 1, 55, 36);
+        std_rows(t, 1, 0x100, 0, 1, ROWS(1, 2));
+        tx_x28cs(t, PK_M29, 1, 0, 3, 36, 0);
+        tx_header(t, 1, 0x01, 0, 0);      std_rows(t, 1, 0x101, 0, 1, ROWS(1));
+        tx_x28cs(t, PK_M29, 1, 4, 4, 36, 0);
+        t->first_fault = t->n;
+        tx_header(t, 1, 0x00, 0, F_C8);
+        tx_x28cs(t, PK_X28, 1, 0, 5, 55, 36);
+        std_rows(t, 1, 0x100, 0, 2, ROWS(1));
+        tx_x28cs(t, PK_M29, 1, 0, 6, 36, 0);
+        tx_header(t, 1, 0x01, 0, 0);      std_rows(t, 1, 0x101, 0, 2, ROWS(1));
+        tx_x28cs(t, PK_M29, 1, 4, 4, 36, 0);
+        tx_finish(t);
+
+        /* Page 100 carries X/28/4 alone (Cyrillic / Greek), page 101 X/28/0 followed by X/28/4; no M/29: the magazine
+         * defaults are the decoder's.  Second cycle: the same packets again, X/28/4 of page 100 with new contents. */
+        t = tx_new("X/28/4 retransmitted over the cached copy", 0);
+        tx_header(t, 1, 0x00, 0, 0);
+        tx_x28cs(t, PK_X28, 1, 4, 1, 36, 55);
+        std_rows(t, 1, 0x100, 0, 1, ROWS(1));
+        tx_header(t, 1, 0x01, 0, 0);
+        tx_x28cs(t, PK_X28, 1, 0, 2, 55, 36);
+        tx_x28cs(t, PK_X28, 1, 4, 3, 55, 36);
+        std_rows(t, 1, 0x101, 0, 1, ROWS(1));
+        t->first_fault = t->n;
+        tx_header(t, 1, 0x00, 0, F_C8);
+        tx_x28cs(t, PK_X28, 1, 4, 4, 36, 55);
+        std_rows(t, 1, 0x100, 0, 2, ROWS(1));
+        tx_header(t, 1, 0x01, 0, 0);
+        tx_x28cs(t, PK_X28, 1, 0, 2, 55, 36);
+        tx_x28cs(t, PK_X28, 1, 4, 3, 55, 36);
+        std_rows(t, 1, 0x101, 0, 2, ROWS(1));
+        tx_finish(t);
+
+        /* Page 100 carries X/26/0-1, X/27/0 and X/27/4; second cycle: the same enhancement packets again (identical
+         * contents, as a real service repeats them), rows updated. */
+        t = tx_new("X/26 and X/27 retransmitted over the cached copy", 0);
+        {
+                unsigned l4[13];
+                int rs = 0;
+                for (int i = 0; i < 13; i++) l4[i] = (0x2A5A5 + 0x1357 * i) & 0x3FFFF;
+                tx_header(t, 1, 0x00, 0, 0);
+                tx_x26(t, 1, 0, x26_a); note_x26(t, 1, x26_a, 13, &rs);
+                tx_x26(t, 1, 1, x26_b); note_x26(t, 1, x26_b, 13, &rs);
+                tx_x27_0(t, 1, x27_links);
+                tx_triplets(t, PK_X27, 1, 27, 4, l4, t->cur[1]);
+                std_rows(t, 1, 0x100, 0, 1, ROWS(1, 2, 3, 12));
+                tx_header(t, 1, 0x01, 0, 0);      std_rows(t, 1, 0x101, 0, 1, ROWS(1));
+                t->first_fault = t->n;
+                rs = 0;
+                tx_header(t, 1, 0x00, 0, F_C8);
+                tx_x26(t, 1, 0, x26_a); note_x26(t, 1, x26_a, 13, &rs);
+                tx_x26(t, 1, 1, x26_b); note_x26(t, 1, x26_b, 13, &rs);
+                tx_x27_0(t, 1, x27_links);
+                tx_triplets(t, PK_X27, 1, 27, 4, l4, t->cur[1]);
+                std_rows(t, 1, 0x100, 0, 2, ROWS(1, 3));
+                tx_header(t, 1, 0x01, 0, 0);      std_rows(t, 1, 0x101, 0, 2, ROWS(1));
+        }
+        tx_finish(t); spread_x26(t);
+
         if (nT != NT) die("transmission count %d", nT);
 }
 
@@ -642,7 +741,16 @@ struct cprobe {
         int seen, kept, blank, bad, bad_col; unsigned bad_char; int bad_step;
         /* (e): capture the page as fetched at level 1.5 after the last packet */
         int capture, cap_ok; uint16_t cap[25][40]; int nav_ok; int nav[6][2];
+        /* (g): observe what X/28 and M/29 control, all transmitted pages at four levels, after the last packet */
+        struct gobs *g;
 };
+
+#define G_NLEV 4
+#define G_MAXPG 6
+static const vbi_wst_level g_level[G_NLEV] = { VBI_WST_LEVEL_1, VBI_WST_LEVEL_1p5, VBI_WST_LEVEL_2p5, VBI_WST_LEVEL_3p5 };
+static const char *g_level_name[G_NLEV] = { "1", "1.5", "2.5", "3.5" };
+struct gpage { int ok, font[2], screen_color, screen_opacity; vbi_rgba color_map[40]; vbi_char text[25][40]; };
+struct gobs { int np; struct gpage pg[G_MAXPG][G_NLEV]; };
 
 struct evctx { struct hx seq, keys; uint64_t set; int n; int nev; struct pgkey evk[64]; };
 
@@ -871,6 +979,7 @@ static void run_tx(const struct tx *t, const uint8_t *skip, int fk, const uint8_
                 }
                 if (pr && pr->active && i >= pr->from && i < pr->to) do_probe(vbi, pr, i);
         }
+        take_snapshot(vbi, &ev, out);
         if (pr && pr->capture) {
                 static vbi_page cpg;
                 pr->cap_ok = vbi_fetch_vt_page(vbi, &cpg, pr->pgno, pr->subno, VBI_WST_LEVEL_1p5, 25, FALSE);
@@ -878,7 +987,22 @@ static void run_tx(const struct tx *t, const uint8_t *skip, int fk, const uint8_
                 pr->nav_ok = vbi_fetch_vt_page(vbi, &cpg, pr->pgno, pr->subno, VBI_WST_LEVEL_1p5, 25, TRUE);
                 if (pr->nav_ok) for (int i = 0; i < 6; i++) { pr->nav[i][0] = cpg.nav_link[i].pgno; pr->nav[i][1] = cpg.nav_link[i].subno; }
         }
-        take_snapshot(vbi, &ev, out);
+        if (pr && pr->g) {
+                static vbi_page gpg;
+                struct gobs *g = pr->g;
+                g->np = t->ntx < G_MAXPG ? t->ntx : G_MAXPG;
+                for (int i = 0; i < g->np; i++) for (int l = 0; l < G_NLEV; l++) {
+                        struct gpage *gp = &g->pg[i][l];
+                        memset(gp, 0, sizeof *gp);
+                        memset(&gpg, 0, sizeof gpg);
+                        gp->ok = vbi_fetch_vt_page(vbi, &gpg, t->txset[i].pgno, t->txset[i].subno, g_level[l], 25, FALSE);
+                        if (!gp->ok) continue;
+                        for (int j = 0; j < 2; j++) gp->font[j] = gpg.font[j] ? (int)(gpg.font[j] - vbi_font_descriptors) : -1;
+                        gp->screen_color = gpg.screen_color; gp->screen_opacity = gpg.screen_opacity;
+                        memcpy(gp->color_map, gpg.color_map, sizeof gp->color_map);
+                        for (int r = 0; r < 25; r++) memcpy(gp->text[r], gpg.text + r * gpg.columns, sizeof gp->text[r]);
+                }
+        }
         vbi_event_handler_unregister(vbi, on_event, &ev);
         vbi_decoder_delete(vbi);
         n_runs++;
@@ -937,7 +1061,7 @@ static void self_check(void)
                         for (int i = 0; i < t->ni; i++) {
                                 const struct inst *in = &t->in[i];
                                 if (in->filler || in->pgno != t->txset[k].pgno || in->subno != t->txset[k].subno) continue;
-                                lop = in->lop; have_any = 1;
+                                lop = in->lop && !in->nonlatin; have_any = 1;
                                 if (in->flags & F_C4) memset(rows, ' ', sizeof rows);
                                 for (int r = 1; r < 26; r++) if (in->have[r]) memcpy(rows[r], in->row[r], 40);
                         }
@@ -972,8 +1096,14 @@ struct casectx {
         uint64_t cls[8];
 };
 
-enum { CL_A, CL_BDROP, CL_BHDR, CL_C, CL_CHDR, CL_DONLY, CL_NONE };
+enum { CL_A, CL_BDROP, CL_BHDR, CL_C, CL_CHDR, CL_G, CL_DONLY, CL_NONE };
 /* (e) is judged in addition to (d): X/26 packet, address and designation at most corrected, a triplet with two flips */
+
+/* reference captures of the current case (one packet), made once: (e)/(f) fault free run and run without the
+ * X/26 packets of the page / without the packet; (g) run with the packet dropped */
+static struct cprobe ref_eb, ref_en;
+static struct gobs g_faulted, g_dropped;
+static int have_ref_e, have_g_dropped;
 
 static void mask_str(const uint8_t *m, char *o, size_t n)
 {
@@ -1057,6 +1187,7 @@ static void case_init(struct casectx *cx, int ti, int k)
 {
         memset(cx, 0, sizeof *cx);
         cx->ti = ti; cx->k = k;
+        have_ref_e = have_g_dropped = 0;
         const struct tx *t = &T[ti];
         focus_pgno = focus_subno = -1;
         if (t->p[k].inst >= 0) { focus_pgno = t->in[t->p[k].inst].pgno; focus_subno = t->in[t->p[k].inst].subno; }
@@ -1139,8 +1270,12 @@ static void evaluate(struct casectx *cx, const uint8_t *mask, const char *family
         else if (mragBad) { cl = CL_BDROP; worst = f[0] == 2 ? 0 : 1; }
         else if (mragOK && p->kind != PK_HEADER && desig >= 0 && f[desig] == 2) { cl = CL_BDROP; worst = desig; }
         else if (mragOK && p->kind == PK_HEADER && ctl2 >= 0 && ctlmax <= 2) { cl = CL_BHDR; worst = ctl2; }
-        else if (mragOK && p->kind == PK_ROW && in && in->lop && parodd) cl = CL_C;
-        else if (mragOK && p->kind == PK_HEADER && in && in->lop && ctlmax <= 1 && parodd && !pareven) cl = CL_CHDR;
+        else if (mragOK && p->kind == PK_ROW && in && in->lop && !in->nonlatin && parodd) cl = CL_C;
+        else if (mragOK && p->kind == PK_HEADER && in && in->lop && !in->nonlatin && ctlmax <= 1 && parodd && !pareven) cl = CL_CHDR;
+        else if (mragOK && (p->kind == PK_X28 || p->kind == PK_M29) && desig >= 0 && f[desig] <= 1 && !over2 && !nOther && maxH == 2) {
+                cl = CL_G;      /* an uncorrectable triplet, everything else at most corrected */
+                for (int u = 0; u < p->nu; u++) if (p->u[u].kind == K_H24 && f[u] == 2) { worst = u; break; }
+        }
         else if (!over2) cl = CL_DONLY;
 
         /* (c): set up the probe */
@@ -1162,9 +1297,15 @@ static void evaluate(struct casectx *cx, const uint8_t *mask, const char *family
                 pr.earlier = in->earlier_hdr >= 0 ? t->in[in->earlier_hdr].htext : NULL;
         }
 
+        /* (e), (f): capture the page at level 1.5 (text, links) in the faulted run; (g): the observer */
+        int enh_ok = mragOK && (desig < 0 || f[desig] <= 1) && !over2 && !nOther && maxH == 2 && in && in->lop;
+        int want_e = enh_ok && p->kind == PK_X26, want_f = enh_ok && p->kind == PK_X27;
+        if (want_e || want_f) { pr.capture = 1; pr.pgno = in->pgno; pr.subno = in->subno; }
+        if (cl == CL_G) pr.g = &g_faulted;
+
         struct snap s;
         run_label = "faulted";
-        run_tx(t, NULL, k, mask, pr.active ? &pr : NULL, &s);
+        run_tx(t, NULL, k, mask, &pr, &s);
         cx->n_eval++; cx->cls[cl]++;
         {
                 struct hx h; hx_init(&h); hx_u64(&h, cx->ti * 64 + k); hx_add(&h, mask, 42);
@@ -1246,6 +1387,63 @@ static void evaluate(struct casectx *cx, const uint8_t *mask, const char *family
                         } else mc_count("c_containment_checked", 1);
                 }
                 break;
+        case CL_G: {
+                /* observer first: what X/28 / M/29 control, as fetched, against the packet-dropped run */
+                if (!have_g_dropped) {
+                        struct cprobe dp; memset(&dp, 0, sizeof dp); dp.g = &g_dropped;
+                        uint8_t skip[MAXP] = { 0 }; skip[k] = 1;
+                        run_label = "packet dropped (observer)"; run_tx(t, skip, -1, NULL, &dp, &cx->drop); cx->have_drop = 1;
+                        have_g_dropped = 1;
+                }
+                const char *aspect = NULL; char what[200] = ""; int nonlatin = 0; uint64_t ncmp = 0;
+                for (int i = 0; i < g_dropped.np && !aspect; i++) for (int l = 0; l < G_NLEV && !aspect; l++) {
+                        const struct gpage *a = &g_faulted.pg[i][l], *b = &g_dropped.pg[i][l];
+                        if (b->ok && b->font[0] >= 32) nonlatin = 1;    /* G0 set is Cyrillic / Greek / ...: the extension is in effect */
+                        ncmp++;
+                        if (a->ok != b->ok) { aspect = "fetch result"; snprintf(what, sizeof what, "fetch %s, without the packet %s", a->ok ? "succeeds" : "fails", b->ok ? "succeeds" : "fails"); }
+                        else if (!a->ok) continue;
+                        else if (a->font[0] != b->font[0] || a->font[1] != b->font[1]) {
+                                aspect = "character set"; snprintf(what, sizeof what, "character sets %d/%d, without the packet %d/%d", a->font[0], a->font[1], b->font[0], b->font[1]);
+                        } else {
+                                int ar = -1, ac = -1;
+                                for (int r = 0; r < 25 && !aspect; r++) for (int c = 0; c < 40; c++) {
+                                        if (a->text[r][c].unicode != b->text[r][c].unicode) {
+                                                aspect = "character set"; snprintf(what, sizeof what, "row %d column %d shows U+%04X, without the packet U+%04X", r, c, a->text[r][c].unicode, b->text[r][c].unicode);
+                                                break;
+                                        }
+                                        if (ar < 0 && memcmp(&a->text[r][c], &b->text[r][c], sizeof(vbi_char))) { ar = r; ac = c; }
+                                }
+                                for (int j = 0; j < 40 && !aspect; j++) if (a->color_map[j] != b->color_map[j]) {
+                                        aspect = "colour map"; snprintf(what, sizeof what, "colour map entry %d is %08x, without the packet %08x", j, a->color_map[j], b->color_map[j]);
+                                }
+                                if (!aspect && a->screen_color != b->screen_color) {
+                                        aspect = "screen colour"; snprintf(what, sizeof what, "screen colour %d, without the packet %d", a->screen_color, b->screen_color);
+                                }
+                                if (!aspect && a->screen_opacity != b->screen_opacity) {
+                                        aspect = "screen opacity"; snprintf(what, sizeof what, "screen opacity %d, without the packet %d", a->screen_opacity, b->screen_opacity);
+                                }
+                                if (!aspect && ar >= 0) {
+                                        aspect = "cell attributes"; snprintf(what, sizeof what, "row %d column %d foreground %d background %d opacity %d, without the packet %d %d %d", ar, ac,
+                                                a->text[ar][ac].foreground, a->text[ar][ac].background, a->text[ar][ac].opacity,
+                                                b->text[ar][ac].foreground, b->text[ar][ac].background, b->text[ar][ac].opacity);
+                                }
+                        }
+                        if (aspect) {
+                                snprintf(key, sizeof key, "(g) uncorrectable triplet in %s changes the fetched page: %s", pk_name[p->kind], aspect);
+                                mc_violation(key, "T=%s packet %d %s: page %03x.%04x fetched at level %s: %s", t->name, k, ms,
+                                             t->txset[i].pgno, t->txset[i].subno, g_level_name[l], what);
+                        }
+                }
+                mc_count("g_page_level_fetches_compared", ncmp);
+                if (nonlatin) mc_count("g_checked_with_non_latin_page", 1);
+                int d = snap_diff(&s, get_drop(cx), FULL_MASK);
+                if (d) {
+                        snprintf(key, sizeof key, "(g) packet with uncorrectable Hamming 24/18 triplet not ignored: %s", pk_name[p->kind]);
+                        mc_violation(key, "T=%s packet %d %s: differs from the run without this packet in: %s", t->name, k, ms, diff_str(d));
+                }
+                if (d || aspect) explain(cx, mask, 0);
+                else mc_outcome("(g) uncorrectable triplet in %s: state and pages fetched at levels 1-3.5 equal to run without the packet", pk_name[p->kind]);
+                break; }
         default:
                 break;
         }
@@ -1253,14 +1451,16 @@ static void evaluate(struct casectx *cx, const uint8_t *mask, const char *family
         /* (e) containment of an uncorrectable X/26 triplet: the triplets of the packet are "dropped, not misplaced" -
          * every cell of the page as fetched at level 1.5 shows what the fault free run shows there or what the page
          * shows without its X/26 packets (the level one character), never a third character. */
-        if (p->kind == PK_X26 && mragOK && (desig < 0 || f[desig] <= 1) && !over2 && !nOther && maxH == 2 && in && in->lop) {
-                static struct cprobe ef, eb, en;
-                memset(&ef, 0, sizeof ef); ef.capture = 1; ef.pgno = in->pgno; ef.subno = in->subno; eb = ef; en = ef;
-                struct snap s2; uint8_t skip[MAXP] = { 0 };
-                for (int i = 0; i < t->n; i++) if (t->p[i].inst == p->inst && t->p[i].kind == PK_X26) skip[i] = 1;
-                run_label = "faulted (capture)"; run_tx(t, NULL, k, mask, &ef, &s2);
-                run_label = "fault free (capture)"; run_tx(t, NULL, -1, NULL, &eb, &s2);
-                run_label = "without X/26 (capture)"; run_tx(t, skip, -1, NULL, &en, &s2);
+        if (want_e) {
+                if (!have_ref_e) {
+                        memset(&ref_eb, 0, sizeof ref_eb); ref_eb.capture = 1; ref_eb.pgno = in->pgno; ref_eb.subno = in->subno; ref_en = ref_eb;
+                        struct snap s2; uint8_t skip[MAXP] = { 0 };
+                        for (int i = 0; i < t->n; i++) if (t->p[i].inst == p->inst && t->p[i].kind == PK_X26) skip[i] = 1;
+                        run_label = "fault free (capture)"; run_tx(t, NULL, -1, NULL, &ref_eb, &s2);
+                        run_label = "without X/26 (capture)"; run_tx(t, skip, -1, NULL, &ref_en, &s2);
+                        have_ref_e = 1;
+                }
+                const struct cprobe ef = pr, eb = ref_eb, en = ref_en;
                 if (ef.cap_ok && eb.cap_ok && en.cap_ok) {
                         int bad = 0, br = 0, bc = 0;
                         for (int r = 1; r < 25 && !bad; r++) for (int c = 0; c < 40; c++)
@@ -1275,13 +1475,15 @@ static void evaluate(struct casectx *cx, const uint8_t *mask, const char *family
 
         /* (f) containment of an uncorrectable X/27/0 link byte: every FLOF link of the fetched page is the link of the fault free
          * run or what the page shows without this packet, never a third page ("never shown as data") */
-        if (p->kind == PK_X27 && mragOK && (desig < 0 || f[desig] <= 1) && !over2 && !nOther && maxH == 2 && in && in->lop) {
-                static struct cprobe ef, eb, en;
-                memset(&ef, 0, sizeof ef); ef.capture = 1; ef.pgno = in->pgno; ef.subno = in->subno; eb = ef; en = ef;
-                struct snap s2; uint8_t skip[MAXP] = { 0 }; skip[k] = 1;
-                run_label = "faulted (capture)"; run_tx(t, NULL, k, mask, &ef, &s2);
-                run_label = "fault free (capture)"; run_tx(t, NULL, -1, NULL, &eb, &s2);
-                run_label = "packet dropped (capture)"; run_tx(t, skip, -1, NULL, &en, &s2);
+        if (want_f) {
+                if (!have_ref_e) {
+                        memset(&ref_eb, 0, sizeof ref_eb); ref_eb.capture = 1; ref_eb.pgno = in->pgno; ref_eb.subno = in->subno; ref_en = ref_eb;
+                        struct snap s2; uint8_t skip[MAXP] = { 0 }; skip[k] = 1;
+                        run_label = "fault free (capture)"; run_tx(t, NULL, -1, NULL, &ref_eb, &s2);
+                        run_label = "packet dropped (capture)"; run_tx(t, skip, -1, NULL, &ref_en, &s2);
+                        have_ref_e = 1;
+                }
+                const struct cprobe ef = pr, eb = ref_eb, en = ref_en;
                 if (ef.nav_ok && eb.nav_ok && en.nav_ok) {
                         int bad = -1;
                         for (int i = 0; i < 6 && bad < 0; i++)
@@ -1314,7 +1516,7 @@ static void evaluate(struct casectx *cx, const uint8_t *mask, const char *family
 
 static void case_done(struct casectx *cx)
 {
-        static const char *cn[] = { "class_a_corrected", "class_b_dropped", "class_b_header", "class_c_row", "class_c_header", "class_d_only", "class_unclaimed" };
+        static const char *cn[] = { "class_a_corrected", "class_b_dropped", "class_b_header", "class_c_row", "class_c_header", "class_g_enhancement_triplet", "class_d_only", "class_unclaimed" };
         mc_count("evaluations", cx->n_eval);
         for (int i = 0; i <= CL_NONE; i++) if (cx->cls[i]) mc_count(cn[i], cx->cls[i]);
         mc_count("decoder_runs", n_runs); n_runs = 0;
@@ -1339,7 +1541,7 @@ static void single_case(uint64_t idx, void *arg)
                 uint8_t m[42] = { 0 }; m[bit / 8] = 1u << (bit % 8);
                 evaluate(&cx, m, "single bit");
         }
-        if (cx.k == 0) mc_sample("T=%s: %d packets; packet 0 (%s): each of 336 single bit flips on a fresh decoder vs fault free run", T[cx.ti].name, T[cx.ti].n, pk_name[T[cx.ti].p[0].kind]);
+        if (cx.k == T[cx.ti].first_fault) mc_sample("T=%s: %d packets; packet %d (%s): each of 336 single bit flips on a fresh decoder vs fault free run", T[cx.ti].name, T[cx.ti].n, cx.k, pk_name[T[cx.ti].p[cx.k].kind]);
         case_done(&cx);
 }
 
@@ -1415,11 +1617,11 @@ static void select_pair_packets(void)
         for (int i = 0; i < npk_total; i++) {
                 const struct tx *t = &T[pkidx[i].ti]; const struct pkt *p = &t->p[pkidx[i].k];
                 int first = 1;
-                for (int j = 0; j < pkidx[i].k; j++)
+                for (int j = t->first_fault; j < pkidx[i].k; j++)
                         if (t->p[j].kind == p->kind && t->p[j].b[2] == p->b[2]) first = 0;
                 if (p->kind == PK_HEADER || p->kind == PK_ROW) {
                         first = 1;
-                        for (int j = 0; j < pkidx[i].k; j++) if (t->p[j].kind == p->kind) first = 0;
+                        for (int j = t->first_fault; j < pkidx[i].k; j++) if (t->p[j].kind == p->kind) first = 0;
                         if (p->kind == PK_HEADER && pkidx[i].ti == 3 && !t->in[p->inst].filler) first = 1;
                 }
                 if (first) selidx[nsel++] = i;
@@ -1545,19 +1747,19 @@ int main(int argc, char **argv)
         mc_set_budget(240, 1500);
         build_transmissions();
         self_check();
-        for (int ti = 0; ti < nT; ti++) for (int k = 0; k < T[ti].n; k++) { pkidx[npk_total].ti = ti; pkidx[npk_total].k = k; npk_total++; }
+        for (int ti = 0; ti < nT; ti++) for (int k = T[ti].first_fault; k < T[ti].n; k++) { pkidx[npk_total].ti = ti; pkidx[npk_total].k = k; npk_total++; }
 
         mc_meta("level", "fault_enumeration");
-        mc_meta("technique", "bounded-exhaustive fault injection into transmissions of a transmitter model; each faulted transmission runs through vbi_decode() on a fresh decoder and is compared with fault free / packet dropped / page removed reference runs (canonical state hash: events, cache, fetched pages, network data, pages in progress)");
-        mc_meta("rule", "one evaluation = one fault pattern (bit mask on one packet, or one dropped packet) of one base transmission; distinct = distinct (transmission, packet, mask); every pattern flips at least one transmitted bit and the decoder is run on it, so none is trivial; the class counters say which clause judged it");
-        mc_meta("assume", "page contents limited to the transmitter model's alphabet: letters, digits, space, colon, hyphen, alpha colour codes; 13 base transmissions (plain, update over cached copy with C8 and C4, subpages, clock subcode / C5 / C6 / C7 / C9 / C13, X/26 two packets, X/27/0 + X/27/4, X/28/0 + X/28/4 + M/29/0 + M/29/4, 8/30 format 1, 8/30 format 2, two magazines parallel, magazine serial, Hamming coded MOT rows, four pages with rolling header)");
+        mc_meta("technique", "bounded-exhaustive fault injection into transmissions of a transmitter model; each faulted transmission runs through vbi_decode() on a fresh decoder and is compared with fault free / packet dropped / page removed reference runs (canonical state hash: events, cache, fetched pages, network data, pages in progress); an X/28 or M/29 with an uncorrectable triplet must in addition leave every transmitted page, fetched at levels 1, 1.5, 2.5 and 3.5, with the character set, colour map, screen colour / opacity and cell attributes of the packet dropped run");
+        mc_meta("rule", "one evaluation = one fault pattern (bit mask on one packet, or one dropped packet) of one base transmission; distinct = distinct (transmission, packet, mask); every pattern flips at least one transmitted bit and the decoder is run on it, so none is trivial; the class counters say which clause judged it; in the three 'retransmitted over the cached copy' transmissions only the packets of the second cycle are faulted, the first cycle is the fault free history that puts the page with its enhancement packets into the cache");
+        mc_meta("assume", "page contents limited to the transmitter model's alphabet: letters, digits, space, colon, hyphen, alpha colour codes; 16 base transmissions (plain, update over cached copy with C8 and C4, subpages, clock subcode / C5 / C6 / C7 / C9 / C13, X/26 two packets, X/27/0 + X/27/4, X/28/0 + X/28/4 + M/29/0 + M/29/4, 8/30 format 1, 8/30 format 2, two magazines parallel, magazine serial, Hamming coded MOT rows, four pages with rolling header, and three transmitted twice, identical or updated enhancement packets over the cached first copy: page with X/28/0 (Greek / Cyrillic character sets, own colour map and screen colour) in a magazine with M/29/0 + M/29/4; page with X/28/4 alone and page with X/28/0 + X/28/4; page with X/26/0-1 + X/27/0 + X/27/4)");
         mc_meta("assume", "one faulted packet per run (faults in two different packets of one transmission are not combined)");
         mc_meta("assume", "packet types not in the transmissions: X/27/1-3 and 5-7, X/28/1 and 3, MIP/BTT/AIT/POP/DRCS page rows, 8/30 via packet 31");
         mc_meta("assume", "canonical state leaves out bytes raw[0][0..7] of a stored page (the header's address/control bytes kept as received, never decoded again; exp-vtx writes them out verbatim) and the clock_update bit of a TTX_PAGE event whose roll_header is 0 (store_lop() leaves it uninitialised)");
         mc_meta("assume", "(b) for a header while a MOT page is in progress: network data not compared (rows of system pages are parsed into magazine data on receipt)");
         int thorough = mc_tier == MC_THOROUGH;
         select_pair_packets();
-        mc_meta("bound", "%d packets in %d transmissions: all 336 single flips per packet; all pairs inside every Hamming 8/4 byte and 24/18 triplet%s; bursts of %s adjacent bits at every position; every single dropped packet%s",
+        mc_meta("bound", "%d faulted packets in %d transmissions (all packets; of the three retransmission shapes the second cycle): all 336 single flips per packet; all pairs inside every Hamming 8/4 byte and 24/18 triplet%s; bursts of %s adjacent bits at every position; every single dropped packet%s",
                 npk_total, nT, thorough ? " and inside every parity / unprotected byte" : "", thorough ? "2..8" : "2, 3 and 8",
                 thorough ? "; every pair of flips anywhere in one packet (C(336,2) = 56280 per packet) for the first packet of each kind/designation per transmission" : "");
         if (thorough) mc_meta("assume", "pair-anywhere phase covers %d of %d packets (first of each kind and designation in each transmission, all headers of the subcode/control transmission)", nsel, npk_total);
